@@ -28,6 +28,13 @@ def config_from_text(text):
     return cp
 
 
+def solution_from_text(text):
+    """a solution file is literal text (no interpolation)"""
+    cp = configparser.ConfigParser(interpolation=None)
+    cp.read_file(io.StringIO(text))
+    return cp
+
+
 def config_to_dict(cp):
     out = {}
     for section in cp.sections():
